@@ -20,7 +20,17 @@ def total_variation(r, t):
     return 0.5 * float(np.sum(np.abs(r / r.sum() - t / t.sum())))
 
 
+def smoothed_kl(r, t):
+    """an ASYMMETRIC user-supplied divergence: KL(reference || test) of add-one smoothed histograms"""
+    r = np.asarray(r, dtype=float) + 1.0
+    t = np.asarray(t, dtype=float) + 1.0
+    r, t = r / r.sum(), t / t.sum()
+    return float(np.sum(r * np.log(r / t)))
+
+
 def divergence(kind):
+    if kind == "AKL":
+        return smoothed_kl
     if kind == "H":
         return hellinger
     if kind == "KL":
